@@ -32,6 +32,7 @@ RULE = (
     "use before connect, close/wait_closed raising OSError. Non-trivial = > 1 chunk with a cut inside a line, or an error line followed by a "
     "good line, or a fault case; distinct = distinct case JSON."
     ' Round 5: a `duplex` kind: several connections on one transport object, writes while a read waits (for data / for the rest of a line), disconnect variants, use after disconnect.'
+    ' Round 6: lost-link cases reconnect on the same object and read from the new connection; duplex cases issue 2-3 concurrent writes under back-pressure (bytes must be the lines in call order).'
 )
 ASSUMPTIONS = [
     "asyncio.StreamReader.readuntil semantics for over-long lines (data stays in the reader) are trusted; no recovery is demanded after them",
